@@ -1,6 +1,329 @@
-import DFV.Model.C17
+import DFV.Lemmas.C17Examples
+import DFV.Props.C01
+/-!
+# C17 — xarray export/import is lossless and uses cell centres as coordinates
+
+Property theorems about the model of `Field.to_xarray` / `Field.from_xarray`
+(`DFV/Model/C17.lean`).  Number of dimensions, corners, cell counts, dimension names, units,
+tolerance factor, component count, labels, dtype tag and the values themselves (any type `α`:
+the code only moves them) are universally quantified.  `f.WF` is what the constructors of
+`Region`, `Mesh`, `Field` guarantee (plus: no spatial dimension is called `vdims`); the
+driver evaluates the same predicate on every real field of the correspondence run.
+-/
 namespace DFV.C17
 open DFV
-/-- placeholder while the model is validated against the code -/
-theorem placeholder_tmp : defaultTol = defaultTol := rfl
+
+variable {α : Type}
+
+/-! ## Export -/
+
+/-- **Coordinates are the cell centres, with the region's units.**  Axis `a` of the exported
+DataArray is called like the region's dimension `a`, has one coordinate per cell, coordinate
+`j` is the centre `pmin + (j+½)·cell` of cell `j` (the `centreAx` of C01), and its `units`
+attribute is the region's unit on that axis. -/
+theorem export_coords (f : XFld α) (hf : f.WF) (nm : String) (u : PyArg) (hu : u ≠ .other) :
+    ∃ xa, toXarray f (.str nm) u = .ok xa ∧
+      ∀ a, a < f.mesh.ndim →
+        xa.axes.getD a default =
+          { name := f.mesh.region.dims.getD a "", size := f.mesh.nAt a,
+            coord := some { vals := tab (f.mesh.nAt a) fun j => f.mesh.centreAx a (j : Int),
+                            units := some (f.mesh.region.units.getD a "") } } := by
+  refine ⟨exported f nm u, ?_, fun a ha => exported_axis f hf nm u a ha⟩
+  unfold toXarray
+  simp only [hu, if_false]
+
+/-- **Every coordinate lies strictly inside its own cell** and the mesh maps it back to the
+index it came from (`Mesh.point2index` per axis, C01): the exported coordinates select
+exactly the cells they label. -/
+theorem export_coords_index (m : Mesh) (hm : m.Inv) (a : Nat) (ha : a < m.ndim) (j : Nat) (hj : j < m.nAt a) :
+    m.region.lo a + (j : Rat) * m.cellAt a < m.centreAx a (j : Int) ∧
+    m.centreAx a (j : Int) < m.region.lo a + ((j : Rat) + 1) * m.cellAt a ∧
+    m.indexAx a (m.centreAx a (j : Int)) = j := by
+  have hc := cellAt_pos m hm a ha
+  refine ⟨?_, ?_, C01.roundtrip_axis m a j hj (hm.1.2.2.2.2.2 a ha)⟩
+  · unfold Mesh.centreAx; push_cast; linarith
+  · unfold Mesh.centreAx; push_cast; linarith
+
+/-- **Layout of the export**: dimensions = the region's (plus `vdims` exactly for vector
+fields), the label coordinate lists the component labels, the attributes carry unit, cell
+size, corners, component count (a Python int) and tolerance factor, the data are the field
+array (component axis squeezed for scalar fields), name and dtype as given. -/
+theorem export_layout (f : XFld α) (hf : f.WF) (nm : String) (u : PyArg) :
+    (exported f nm u).dims = f.mesh.region.dims ++ (if 1 < f.nvdim then ["vdims"] else []) ∧
+    (exported f nm u).vdimsCoord = (if 1 < f.nvdim then f.vdims else none) ∧
+    (exported f nm u).attrs = { units := exportUnit u f.unit, cell := some f.mesh.cell,
+                                pmin := some f.mesh.region.pmin, pmax := some f.mesh.region.pmax,
+                                nvdim := some (.int f.nvdim), tol := some f.mesh.region.tol } ∧
+    (1 < f.nvdim → (exported f nm u).data = f.data) ∧
+    (f.nvdim = 1 → (exported f nm u).data.shape = f.mesh.n ∧
+      ∀ i, (exported f nm u).data.get i = f.data.get (i ++ [0])) ∧
+    (exported f nm u).name = nm ∧ (exported f nm u).dtype = f.dtype := by
+  refine ⟨?_, rfl, rfl, ?_, ?_, rfl, rfl⟩
+  · unfold XA.dims exported exportAxes
+    simp only [List.map_append, map_tab]
+    congr 1
+    · exact tab_getD_self _ _
+    · split <;> rfl
+  · intro h; unfold exported exportData; simp only [h, if_true]
+  · intro h
+    have h1 : ¬ (1 < f.nvdim) := by omega
+    have e : (exported f nm u).data = ⟨f.data.shape.dropLast, fun i => f.data.get (i ++ [0])⟩ := by
+      show exportData f = _
+      unfold exportData; rw [if_neg h1]
+    rw [e]
+    exact ⟨by show f.data.shape.dropLast = _; rw [hf.shape, List.dropLast_concat], fun _ => rfl⟩
+
+/-- the attribute `units` is the `unit` argument if it is a non-empty string, else the field's -/
+theorem export_unit (s : String) (fu : Option String) :
+    exportUnit (.str s) fu = (if s = "" then fu else some s) ∧ exportUnit .none fu = fu := ⟨rfl, rfl⟩
+
+/-- non-string `name` (also `None`) or non-string `unit` → `TypeError` -/
+theorem export_rejects_bad_args (f : XFld α) (name unit : PyArg) (h : (∀ s, name ≠ .str s) ∨ unit = .other) :
+    toXarray f name unit = .error .type := by
+  unfold toXarray
+  cases name with
+  | str s => rcases h with h | h
+             · exact absurd rfl (h s)
+             · simp [h]
+  | none => rfl
+  | other => rfl
+
+/-! ## Import of an export -/
+
+/-- **Round trip.**  For every well-formed field, any name and unit argument: exporting and
+importing succeeds and returns a field on the same region (corners, dimension names, units,
+tolerance factor) with the same cell counts, component count, array shape, the same value at
+every cell and component (hence the same flattened content), the same dtype tag — and the
+same labels, provided the field is a labelled vector field or an unlabelled scalar field
+(`LabelsStd`; see `xa_roundtrip_labels_iff`). -/
+theorem xa_roundtrip (f : XFld α) (hf : f.WF) (nm : String) (u : PyArg) (hu : u ≠ .other) :
+    ∃ xa g, toXarray f (.str nm) u = .ok xa ∧ fromXarray (.dataArray xa) = .ok g ∧
+      g.mesh.region = f.mesh.region ∧ g.mesh.n = f.mesh.n ∧ g.nvdim = f.nvdim ∧
+      g.data.shape = f.data.shape ∧ (∀ i, inRange f.data.shape i = true → g.data.get i = f.data.get i) ∧
+      g.data.toList = f.data.toList ∧ g.dtype = f.dtype ∧ (LabelsStd f → g.vdims = f.vdims) := by
+  obtain ⟨g, hg, hm, hk, hd, hv, ht, -⟩ :=
+    fromXA_likeExport hf (likeExport_exported hf nm u) (fun h => by cases h)
+  rw [meshAfter_export hf] at hm
+  refine ⟨exported f nm u, g, ?_, hg, by rw [hm], by rw [hm], hk, hd.1, fun i hi => hd.2 i (hd.1 ▸ hi), ?_, ht, ?_⟩
+  · unfold toXarray; simp only [hu, if_false]
+  · apply hd.toList_eq
+    intro x hx
+    rw [hd.1, hf.shape, List.mem_append] at hx
+    rcases hx with hx | hx
+    · obtain ⟨a, ha, rfl⟩ := n_mem hf x hx
+      exact hf.mesh.2.2 a ha
+    · simp at hx; rw [hx]; exact hf.nvdim
+  · intro hl; rw [hv]; exact (vdimsAfter_eq_iff hf).mpr hl
+
+/-- **Exactly which labels survive.**  The imported field has the labels of the original if
+and only if the original is a vector field with labels or a scalar field without: a vector
+field WITHOUT labels comes back with the default labels, a scalar field WITH a label comes
+back without (the exporter writes the label coordinate only for `nvdim > 1`, the importer
+applies the constructor's defaults). -/
+theorem xa_roundtrip_labels_iff (f : XFld α) (hf : f.WF) (nm : String) (u : PyArg) (g : XFld α)
+    (hg : fromXarray (.dataArray (exported f nm u)) = .ok g) : g.vdims = f.vdims ↔ LabelsStd f := by
+  obtain ⟨g', hg', -, -, -, hv, -⟩ :=
+    fromXA_likeExport hf (likeExport_exported hf nm u) (fun h => by cases h)
+  have : g = g' := by
+    have h1 : fromXA (exported f nm u) = .ok g := hg
+    rw [hg'] at h1; cases h1; rfl
+  rw [this, hv]
+  exact vdimsAfter_eq_iff hf
+
+/-- the unlabelled vector field, explicitly: it comes back labelled `x,y(,z)` / `v0,v1,…` -/
+theorem xa_roundtrip_unlabelled (f : XFld α) (hf : f.WF) (nm : String) (u : PyArg) (h1 : 1 < f.nvdim)
+    (hn : f.vdims = none) :
+    ∃ g, fromXarray (.dataArray (exported f nm u)) = .ok g ∧ g.vdims = Fld.defaultVdims f.nvdim ∧ g.vdims ≠ f.vdims := by
+  obtain ⟨g, hg, -, -, -, hv, -⟩ :=
+    fromXA_likeExport hf (likeExport_exported hf nm u) (fun h => by cases h)
+  have hv' : g.vdims = Fld.defaultVdims f.nvdim := by
+    rw [hv]; unfold vdimsAfter; simp only [h1, if_true, hn]
+  refine ⟨g, hg, hv', ?_⟩
+  rw [hv, hn]
+  exact vdimsAfter_ne_none h1
+
+/-- what `from_xarray` does not restore (none of it is in the property's list): the imported
+field has no unit, every cell valid, the default component-to-axis mapping, no boundary
+conditions and no subregions — whatever the exported field had. -/
+theorem xa_not_restored (f : XFld α) (hf : f.WF) (nm : String) (u : PyArg) (g : XFld α)
+    (hg : fromXarray (.dataArray (exported f nm u)) = .ok g) :
+    g.unit = none ∧ g.valid = NDA.const f.mesh.n true ∧ g.mesh.bc = "" ∧ g.mesh.subs = [] ∧
+    g.vmap = defaultVmap f.nvdim f.mesh.region.dims g.vdims := by
+  obtain ⟨g', hg', hm, -, -, hv, -, hu, hva, hvm⟩ :=
+    fromXA_likeExport hf (likeExport_exported hf nm u) (fun h => by cases h)
+  have : g = g' := by
+    have h1 : fromXA (exported f nm u) = .ok g := hg
+    rw [hg'] at h1; cases h1; rfl
+  subst this
+  refine ⟨hu, hva, by rw [hm]; rfl, by rw [hm]; rfl, by rw [hvm, hv]⟩
+
+/-! ## Import without the geometric attributes -/
+
+/-- **Rebuild from the coordinates.**  Remove ANY subset of `cell` / `pmin` / `pmax` from an
+exported DataArray (`c p q` say which).  If `cell` is removed, every axis must have at least
+two cells.  Then the importer rebuilds exactly the original region (in ℚ: outermost centre
+∓ half the mean spacing = the original corners) and cell counts, and values, labels and dtype
+tag are as in `xa_roundtrip`. -/
+theorem xa_rebuild (f : XFld α) (hf : f.WF) (nm : String) (u : PyArg) (c p q : Bool)
+    (hc : c = true → ∀ a, a < f.mesh.ndim → 2 ≤ f.mesh.nAt a) :
+    ∃ g, fromXarray (.dataArray (eraseGeom c p q (exported f nm u))) = .ok g ∧
+      g.mesh.region = f.mesh.region ∧ g.mesh.n = f.mesh.n ∧ g.nvdim = f.nvdim ∧
+      g.data.shape = f.data.shape ∧ (∀ i, inRange f.data.shape i = true → g.data.get i = f.data.get i) ∧
+      g.dtype = f.dtype ∧ (LabelsStd f → g.vdims = f.vdims) := by
+  obtain ⟨g, hg, hm, hk, hd, hv, ht, -⟩ :=
+    fromXA_likeExport hf ((likeExport_exported hf nm u).eraseGeom c p q) hc
+  rw [meshAfter_export hf] at hm
+  exact ⟨g, hg, by rw [hm], by rw [hm], hk, hd.1, fun i hi => hd.2 i (hd.1 ▸ hi), ht,
+    fun hl => by rw [hv]; exact (vdimsAfter_eq_iff hf).mpr hl⟩
+
+/-- **Defaults for the remaining attributes.**  With `tolerance_factor` removed as well the
+region gets the default factor (the binary64 `1e-12`); with the `units` attribute removed
+from the coordinate of at least one axis (`sel` picks the dimensions) every axis gets the
+default unit `m`; corners, names and cell counts are rebuilt as before. -/
+theorem xa_rebuild_defaults (f : XFld α) (hf : f.WF) (nm : String) (u : PyArg) (c p q : Bool)
+    (hc : c = true → ∀ a, a < f.mesh.ndim → 2 ≤ f.mesh.nAt a) (sel : String → Bool) :
+    ∃ g, fromXarray (.dataArray (eraseUnits sel (eraseTol (eraseGeom c p q (exported f nm u))))) = .ok g ∧
+      g.mesh.region.pmin = f.mesh.region.pmin ∧ g.mesh.region.pmax = f.mesh.region.pmax ∧
+      g.mesh.region.dims = f.mesh.region.dims ∧ g.mesh.n = f.mesh.n ∧ g.mesh.region.tol = defaultTol ∧
+      ((∃ a, a < f.mesh.ndim ∧ sel (f.mesh.region.dims.getD a "") = true) →
+        g.mesh.region.units = List.replicate f.mesh.ndim "m") ∧
+      ((∀ a, a < f.mesh.ndim → sel (f.mesh.region.dims.getD a "") = false) →
+        g.mesh.region.units = f.mesh.region.units) := by
+  obtain ⟨g, hg, hm, -⟩ :=
+    fromXA_likeExport hf ((((likeExport_exported hf nm u).eraseGeom c p q).eraseTol).eraseUnits sel) hc
+  refine ⟨g, hg, by rw [hm]; rfl, by rw [hm]; rfl, by rw [hm]; rfl, by rw [hm]; rfl, by rw [hm]; rfl, ?_, ?_⟩
+  · rintro ⟨a, ha, hs⟩
+    rw [hm]
+    show unitsAfter f.mesh.ndim _ = _
+    exact unitsAfter_erased _ _ a ha (by simp only [hs, if_true])
+  · intro hs
+    rw [hm]
+    show unitsAfter f.mesh.ndim _ = _
+    rw [← unitsAfter_export hf]
+    unfold unitsAfter
+    have : (tab f.mesh.ndim fun a => if sel (f.mesh.region.dims.getD a "") = true then none else uoExport f a)
+        = tab f.mesh.ndim (uoExport f) := tab_congr _ _ _ fun a ha => by simp only [hs a ha, Bool.false_eq_true, if_false]
+    rw [this]
+    congr 1
+    apply tab_congr
+    intro a ha
+    simp only [hs a ha, Bool.false_eq_true, if_false]
+
+/-- **Rebuild from coordinates, ANY DataArray** (hand-built, not necessarily exported): if the
+geometric axes have distinct names and evenly spaced coordinates `v0, v0+h, …` with `h > 0`
+and at least two coordinates each, and `cell`, `pmin`, `pmax` are all absent, the geometry
+steps of the importer succeed and the mesh reaches exactly half a step beyond the outermost
+coordinates, with one cell per coordinate, the axes' names, and the tolerance factor of the
+attribute (default `1e-12`). -/
+theorem rebuild_from_coords (xa : XA α) (d : Nat) (G : Nat → Axis) (hgeo : geo xa = tab d G) (hd : 0 < d)
+    (v0 h : Nat → Rat) (n : Nat → Nat)
+    (hval : ∀ a, a < d → (G a).values = tab (n a) fun j => v0 a + (j : Rat) * h a)
+    (hh : ∀ a, a < d → 0 < h a) (hn : ∀ a, a < d → 2 ≤ n a)
+    (hnames : hasDup (tab d fun a => (G a).name) = false)
+    (hcell : xa.attrs.cell = none) (hpmin : xa.attrs.pmin = none) (hpmax : xa.attrs.pmax = none)
+    (hshape : ∀ x ∈ xa.data.shape.dropLast, x ≠ 1) :
+    ∃ m, geometryOf xa = .ok m ∧
+      m.region.pmin = (tab d fun a => v0 a - h a / 2) ∧
+      m.region.pmax = (tab d fun a => v0 a + ((n a : Rat) - 1) * h a + h a / 2) ∧
+      m.n = tab d n ∧ m.region.dims = (tab d fun a => (G a).name) ∧
+      m.region.tol = xa.attrs.tol.getD defaultTol :=
+  geometry_from_coords xa d G hgeo hd v0 h n hval hh hn hnames hcell hpmin hpmax hshape
+
+/-- the importer is: component-count checks, then these geometry steps, then `Field(…)` -/
+theorem import_factors (xa : XA α) :
+    fromXarray (.dataArray xa) =
+      (checkNvdim xa.attrs.nvdim xa.dims).bind fun k => (geometryOf xa).bind fun m => fieldOf xa m k :=
+  fromXA_eq xa
+
+/-! ## Rejections -/
+
+/-- **A single-cell axis needs the `cell` attribute** — for every DataArray: no `cell`
+attribute and a geometric axis with fewer than two coordinates ⇒ error. -/
+theorem xa_single_cell_needs_cell (xa : XA α) (hc : xa.attrs.cell = none) (ax : Axis) (hax : ax ∈ geo xa)
+    (hl : ax.values.length ≤ 1) : ∃ e, fromXarray (.dataArray xa) = .error e :=
+  fromXA_single_no_cell xa hc ax hax hl
+
+/-- … in particular for exports: a field with a single-cell axis, `cell` removed (whatever
+else is removed) is rejected, while keeping `cell` is enough (`xa_rebuild` with `c = false`
+has no condition on the cell counts). -/
+theorem xa_export_single_cell_rejected (f : XFld α) (hf : f.WF) (nm : String) (u : PyArg) (p q : Bool)
+    (a : Nat) (ha : a < f.mesh.ndim) (h1 : f.mesh.nAt a = 1) :
+    ∃ e, fromXarray (.dataArray (eraseGeom true p q (exported f nm u))) = .error e := by
+  have hl := (likeExport_exported hf nm u).eraseGeom true p q
+  apply fromXA_single_no_cell _ (by rw [hl.cell]; rfl) (gAxis f.mesh (uoExport f) a)
+  · rw [hl.geo]
+    unfold tab
+    exact List.mem_map.mpr ⟨a, List.mem_range.mpr ha, rfl⟩
+  · rw [gAxis_values hf a ha, ap_length, h1]
+
+/-- not a DataArray → `TypeError` -/
+theorem rejects_non_dataarray : fromXarray (PyObj.other : PyObj α) = .error .type := rfl
+
+/-- missing component count → `KeyError` -/
+theorem rejects_missing_nvdim (xa : XA α) (h : xa.attrs.nvdim = none) :
+    fromXarray (.dataArray xa) = .error .key := fromXA_no_nvdim xa h
+
+/-- component count below one → `ValueError` -/
+theorem rejects_nvdim_lt_one (xa : XA α) (k : Int) (h : xa.attrs.nvdim = some (.int k)) (hk : k < 1) :
+    fromXarray (.dataArray xa) = .error .value := fromXA_nvdim_lt_one xa k h hk
+
+/-- component count that is not a Python int (a float, a numpy integer) → error -/
+theorem rejects_nvdim_not_int (xa : XA α) (q : Rat) (h : xa.attrs.nvdim = some (.other q)) :
+    ∃ e, fromXarray (.dataArray xa) = .error e := fromXA_nvdim_not_int xa q h
+
+/-- vector field without a `vdims` dimension → `ValueError` -/
+theorem rejects_vector_without_vdims (xa : XA α) (k : Int) (h : xa.attrs.nvdim = some (.int k)) (hk : 1 < k)
+    (hd : ¬ "vdims" ∈ xa.dims) : fromXarray (.dataArray xa) = .error .value :=
+  fromXA_vector_no_vdims xa k h hk hd
+
+/-- **Unevenly spaced coordinates are rejected** — as far as `np.allclose` sees them: if on
+some geometric axis one spacing deviates from the mean spacing by more than
+`1e-8 + 1e-5·|mean|`, the import fails (whatever attributes are present). -/
+theorem rejects_uneven (xa : XA α) (ax : Axis) (hax : ax ∈ geo xa) (j : Nat) (hj : j + 1 < ax.values.length)
+    (hdev : 1/100000000 + 1/100000 * absR (meanDiff ax.values)
+              < absR ((ax.values.getD (j + 1) 0 - ax.values.getD j 0) - meanDiff ax.values)) :
+    ∃ e, fromXarray (.dataArray xa) = .error e :=
+  fromXA_uneven xa ax hax (evenB_false_of_dev _ j hj hdev)
+
+/-- **… and what it does not see.**  The threshold has an ABSOLUTE term: coordinates whose
+spacings are all at most `5e-9` (any mesh at the nanometre scale and below) pass the spacing
+test no matter how uneven they are.  The sentence "unevenly spaced coordinates are rejected"
+is therefore false of the code at small length scales (finding D25; witness below). -/
+theorem spacing_blind_below_atol (v : List Rat)
+    (h : ∀ j, j + 1 < v.length → |v.getD (j + 1) 0 - v.getD j 0| ≤ 5/1000000000) : evenB v = true :=
+  evenB_of_small v h
+
+/-! ## Non-vacuity and witnesses -/
+
+example : exF.WF := exF_wf
+example : exS.WF := exS_wf
+example : LabelsStd exF ∧ LabelsStd exS := by unfold LabelsStd; decide
+/-- the exported coordinates of the 3-d example: x has 3 centres, the single-cell axis y one -/
+example : ((exported exF "field" .none).axes.map Axis.values) = [[-1/2, 1/2, 3/2], [1/4], [5/8, 7/8], [0, 1]] := by
+  decide +kernel
+example : (exported exF "field" .none).dims = ["x", "y", "z", "vdims"] := by decide +kernel
+/-- round trip of the 3-d example: same mesh apart from bc -/
+example : (fromXarray (.dataArray (exported exF "field" .none))).toOption.map (fun g => (g.mesh, g.vdims, g.data.toList))
+    = some ({ exF.mesh with bc := "" }, some ["a", "b"], exF.data.toList) := by decide +kernel
+/-- `exS` meets the hypothesis of `xa_rebuild` with everything removed … -/
+example : ∀ a, a < exS.mesh.ndim → 2 ≤ exS.mesh.nAt a := by decide
+example : (fromXarray (.dataArray (eraseGeom true true true (exported exS "s" .none)))).toOption.map (fun g => g.mesh)
+    = some exS.mesh := by decide +kernel
+/-- … while `exF` has a single-cell axis: rejected without `cell`, rebuilt with it -/
+example : (fromXarray (.dataArray (eraseGeom true false false (exported exF "f" .none)))).toOption.map (fun g => g.mesh)
+    = none := by decide +kernel
+example : (fromXarray (.dataArray (eraseGeom false true true (exported exF "f" .none)))).toOption.map (fun g => g.mesh)
+    = some { exF.mesh with bc := "" } := by decide +kernel
+/-- D25 witness: coordinates 0, 1 nm, 5 nm are accepted and give a 3-cell mesh of 2.5 nm cells
+from -1.25 nm to 6.25 nm; the same coordinates in metres are rejected -/
+example : (fromXarray (.dataArray exNm)).toOption.map (fun g => (g.mesh.region.pmin, g.mesh.region.pmax, g.mesh.n))
+    = some ([-5/4000000000], [25/4000000000], [3]) := by decide +kernel
+example : (fromXarray (.dataArray exM)).toOption.map (fun g => g.mesh.n) = none := by decide +kernel
+/-- hypotheses of `rejects_uneven` on the metre-scale witness (spacings 1 and 4, mean 5/2) -/
+example : (1 : Rat)/100000000 + 1/100000 * absR (meanDiff [0, 1, 5]) < absR ((1 - 0) - meanDiff [0, 1, 5]) := by
+  decide +kernel
+/-- an unlabelled vector field and a labelled scalar field are not `LabelsStd` -/
+example : ¬ LabelsStd { exF with vdims := none } := by unfold LabelsStd; decide
+example : ¬ LabelsStd { exS with vdims := some ["s"] } := by unfold LabelsStd; decide
+
 end DFV.C17
